@@ -19,6 +19,7 @@ import (
 	"github.com/openacid/low/sigbits"
 
 	"verif/mc"
+	rf "verif/ref"
 )
 
 // C19: query and codec functions are pure and safe for concurrent readers (E4).
@@ -46,7 +47,7 @@ func init() {
 	mc.Register(&mc.Property{
 		ID:    "C19",
 		Level: "model_checking",
-		Rule: "E4: (schedules) every unordered pair of the function alphabet (one entry per exported query/codec function of bitmap, bmtree, bitstr, bitword, sigbits + TailBitmap.Get/Get1) as a 2-thread program on SHARED inputs, all schedules with ≤P preemptions, and every triple over a 16-entry sub-alphabet with ≤P-1 preemptions; scheduling points are inserted automatically (vinstr, from the current working tree) before every statement that mentions a package-level variable, a method receiver or an alias of either; oracle: per-thread results equal the sequential results, exactly one outcome per program, package state unchanged. " +
+		Rule: "E4: (schedules) every unordered pair of the function alphabet (one entry per exported query/codec function of bitmap, bmtree, bitstr, bitword, sigbits + TailBitmap.Get/Get1) as a 2-thread program on SHARED inputs, all schedules with ≤P preemptions, and every triple over a 16-entry sub-alphabet with ≤P-1 preemptions; scheduling points are inserted automatically (vinstr, from the current working tree) before every statement that mentions a package-level variable, a method receiver or an alias of either; oracle: per-thread results equal the sequential results, exactly one outcome per program, package state unchanged; plus a COLD-START exploration in which every schedule of every same-function pair (thorough: and of every pair of the sub-alphabet) runs in a fresh process with inputs built by reference code, so that first-use windows of lazily initialised state are inside the schedules. " +
 			"(footprint, no scheduling) every alphabet entry × every variant of its parameter grid × 4 input sets with all slice/string arguments in read-only mmap'ed memory (any store faults), package-state deep hash unchanged by every call after a full warm-up pass, results identical in forward and reverse order and identical between the plain and the instrumented binary. (race pass, supplementary) the same bodies free-running under -race in a fresh process. " +
 			"states = distinct schedules (choice-tree nodes), transitions = scheduling points executed; non-trivial schedules are those with at least one preemption.",
 		Assumptions: []string{
@@ -281,19 +282,29 @@ func c19Build(k int, al alloc) *c19In {
 	in := &c19In{}
 	w := ws[k%len(ws)]
 	in.W = al.u64s(w)
-	// indexes are built by the library from heap copies and then moved into argument memory
-	hw := append([]uint64{}, w...)
-	in.RI64 = al.i32s(bitmap.IndexRank64(hw))
-	in.RI64T = al.i32s(bitmap.IndexRank64(hw, true))
-	in.RI128 = al.i32s(bitmap.IndexRank128(hw))
-	in.SI = al.i32s(bitmap.IndexSelect32(hw))
-	s2, r2 := bitmap.IndexSelect32R64(hw)
-	_ = s2
-	in.RI = al.i32s(r2)
-	for _, x := range w {
-		for ; x != 0; x &= x - 1 {
-			in.Ones++
+	// indexes, node lists and word lists are built by REFERENCE code, not by the library: building
+	// the inputs must not warm up (lazily initialise) the functions a cold-start exploration is about
+	{
+		var pre []int32
+		var sel []int32
+		n := int32(0)
+		for wi, x := range w {
+			pre = append(pre, n)
+			for b := 0; b < 64; b++ {
+				if x>>uint(b)&1 == 1 {
+					if n%32 == 0 {
+						sel = append(sel, int32(64*wi+b))
+					}
+					n++
+				}
+			}
 		}
+		in.Ones = int(n)
+		in.RI64 = al.i32s(pre)
+		in.RI64T = al.i32s(append(append([]int32{}, pre...), n))
+		in.RI128 = al.i32s(ref128(pre, n, len(w)))
+		in.SI = al.i32s(sel)
+		in.RI = al.i32s(append(append([]int32{}, pre...), n))
 	}
 	keys := keysets[k%len(keysets)]
 	in.Keys = al.strs(keys)
@@ -315,15 +326,21 @@ func c19Build(k int, al alloc) *c19In {
 	in.Vals = al.u64s([]uint64{0, 1, ^uint64(0), 0xa5a5a5a5a5a5a5a5, 1 << 63, uint64(k) + 2, 0x0f0f})
 	in.Mask = []int32{0x2d, 0x3f, 0x20, 0x35}[k%4]
 	ref := int32(in.Mask)
-	nodes := bmtree.AllPaths(0x3f, 0, 1<<63) // all nodes of the height-5 tree
+	var nodes, stored []uint64 // all nodes of the height-5 tree, and the stored ones, in pre-order
+	rf.Walk(0x3f, func(path, _ uint64, _ int, _ int32, _ bool) { nodes = append(nodes, path) })
+	rf.Walk(ref, func(path, _ uint64, _ int, _ int32, st bool) {
+		if st {
+			stored = append(stored, path)
+		}
+	})
 	in.Nodes = al.u64s(nodes)
-	in.Stored = al.u64s(bmtree.AllPaths(ref, 0, 1<<63))
+	in.Stored = al.u64s(stored)
 	for b := uint64(0); b < 1<<13; b += 257 + uint64(k) {
 		in.BMs = append(in.BMs, al.u64s([]uint64{b * 0x9e3779b97f4a7c15}))
 	}
 	in.BMs = append(in.BMs, al.u64s([]uint64{}), al.u64s([]uint64{^uint64(0), ^uint64(0)}))
 	for i, p := range plain {
-		in.WordLists = append(in.WordLists, al.bytes(bitword.BitWord[c19Widths[i%4]].FromStr(p)))
+		in.WordLists = append(in.WordLists, al.bytes(refWords(p, c19Widths[i%4])))
 	}
 	for _, l := range []int{1, 2, 3, 63, 64, 65, 126, 127, 128, 129, 254, 255, 256, 257, 510, 511, 512, 513, 1022, 1023, 1024, 1025} {
 		lw := make([]uint64, l)
@@ -753,6 +770,35 @@ func c19Run(c *mc.Ctx) {
 			}
 		}
 		c.Set("programs_with_more_than_one_outcome", multi)
+		// cold-start exploration: one fresh process per schedule (first-use windows of lazily
+		// initialised state), same-function pairs (thorough: also all pairs of the sub-alphabet)
+		couts := make([]c19WorkerOut, shards)
+		for s := 0; s < shards; s++ {
+			wg.Add(1)
+			go func(s int) {
+				defer wg.Done()
+				if err := c19Spawn(bin, &couts[s], "c19sched", "cold", c.Tier, fmt.Sprint(s), fmt.Sprint(shards)); err != nil {
+					couts[s].Err = err.Error()
+				}
+			}(s)
+		}
+		wg.Wait()
+		for s := range couts {
+			o := &couts[s]
+			if o.Err != "" {
+				panic("harness: cold-start worker failed: " + o.Err)
+			}
+			c.Add("cold_programs", o.Programs)
+			c.Add("cold_schedules", o.Schedules)
+			c.Add("states", o.Schedules)
+			c.Add("transitions", o.Points)
+			c.Add("traces_validated_against_impl", o.Schedules)
+			c.Count(o.Schedules, o.Schedules)
+			for _, st := range o.Stuck {
+				c.Cap("cold start: a thread blocked outside the scheduler (or the child failed) in program " + st)
+			}
+			c19Merge(c, o, 6<<50|int64(s)<<40)
+		}
 	}
 	// supplementary free-running race pass
 	if rb := os.Getenv("VERIF_RACE_BIN"); rb != "" {
@@ -880,7 +926,7 @@ func c19Judge(kind string, raw json.RawMessage) (string, string, error) {
 			return "concurrent results differ from sequential", "same results", nil
 		}
 		return "no data race", "no data race", nil
-	case "globals", "schedule":
+	case "globals", "schedule", "cold":
 		bin := os.Getenv("VERIF_SCHED_BIN")
 		if bin == "" {
 			return "", "", fmt.Errorf("this case needs the instrumented binary (VERIF_SCHED_BIN); use /verif/check.sh replay")
